@@ -154,6 +154,8 @@ def r3(p, rep):
             # the raise guards the return: the false edge of its `if` dominates the return
             fe = [n for n in cfg.nodes if n.kind == "edge" and n.ast is iff and n.polarity is False]
             dominates = bool(fe) and cfg.dominates(fe[0], ret)
+            if fe:
+                common.thorough_paths(rep, f"C02.R3:{f.qualname.split('::')[1]}:{short}", cfg, cfg.node_for(call), ret, [fe[0]], dominator_verdict=dominates)
             # the collection tested by the `if` and the condition under which it is filled
             coll = None
             t = iff.test
